@@ -65,6 +65,10 @@ func runC12(c *Ctx, r *Report) {
 	importFoundation(c, r, "C12", "ansi")
 	importFoundation(c, r, "C12", "send-input")
 	importFoundation(c, r, "C12", "read-loop")
+	r.Rule("C12/echo-error-surfaces", "in the send-input and interactive workers a failed write or echo read ends the exchange (the return / next input is not sent after it)", 6)
+	importObligationsIf(r, func(sub *Report) { runC06(c, sub) }, "C06/propagate", "C12/echo-error-surfaces", func(k string) bool {
+		return strings.Contains(k, "SendInput") || strings.Contains(k, "SendInteractive") || strings.Contains(k, "sendInteractive")
+	})
 	r.Rule("C12/explicit-matcher", "the exact echo matcher tests that the search window contains the input", 1)
 	checkExplicitMatcherArgs(c, r, "C12/explicit-matcher")
 	r.Rule("C12/op-options-applied", "channel.NewOperation applies the full per-operation option list (completion patterns, interim prompts, eager) in order, leaving the loop only on a non-ignored error", 1)
